@@ -85,12 +85,6 @@ def acceptable(row, threshold, fractional, exact, tol=1e-9):
             verdicts |= {True, False}
         else:
             verdicts.add(aw >= T)
-        if not fractional:
-            # leniency: the statement does not say whether the weight tested is the one
-            # before or after truncation to whole lots
-            q = trunc(imb)
-            wq = abs(w * q / imb)
-            verdicts.add(wq >= T)
     for v in verdicts:
         if v:
             acc |= qtys
